@@ -221,11 +221,12 @@ func H04_ops() {
 }
 
 // H04_sets: union / intersect / diff are the order-preserving de-duplicating
-// set operations of the documentation. Three base numbers are symbolic
-// (pairwise clearly apart, as C18's sameness requires); every element of the
-// two operand lists is one of them, chosen by a selector, so every pattern
-// of repetition and relative order up to the size bound is covered and each
-// path holds for all values of the base numbers.
+// set operations of the documentation. Every element of the two operand
+// lists is one of three distinct numbers, chosen by a selector, so every
+// pattern of repetition and relative order up to the size bound is covered.
+// (Which numbers count as the same element is C18's subject and is decided
+// there for symbolic numbers; with symbolic elements here each path cost
+// seconds of solver time for nothing new, so the elements are concrete.)
 //
 //	union(xs, ys)     = the distinct elements of xs ++ ys, first occurrences, in that order
 //	intersect(xs, ys) = the distinct elements of xs that occur in ys, in the order of xs
@@ -238,14 +239,7 @@ func H04_sets() {
 	names := []string{"xs", "ys"}
 	expr, _, cls := FrontOnce(e, src, tys, names)
 	sv.Assert("accepted", cls == "ok")
-	var base [3]float64
-	for k := range base {
-		base[k] = sv.Float64("v" + itoa(k))
-		sv.Assume(finiteSafe(base[k]))
-		for j := 0; j < k; j++ {
-			sv.Assume(sv.Or(base[k]-base[j] > 1, base[j]-base[k] > 1))
-		}
-	}
+	base := [3]float64{1, 2.5, -3e20}
 	nx, ny := sv.Choice("xs.len", 4), sv.Choice("ys.len", 3+thoroughExtra())
 	pick := func(name string, n int) (*val.Val, []int) {
 		l := val.List(types.List(types.Num).List(), n).List()
